@@ -661,9 +661,10 @@ func runC12(p *Program, r *Report) {
 	// early end of the inner stream is not a clean EOF
 	c12InnerEOF(p, r, p.Func(signed+"Read"), "r")
 	c12InnerEOF(p, r, uf, "reader")
-	for _, name := range []string{unsigned + "readAndSkip", unsigned + "readTrailer", unsigned + "extractChunkSize"} {
-		c12InnerEOF(p, r, p.Func(name), "reader")
-	}
+	// helpers: whatever the two Read methods call (transitively, inside the package) may hand a raw
+	// inner io.EOF up only if the Read method itself maps it; decided with a per-function summary
+	c12RawEOFBoundary(p, r, p.Func(signed+"Read"))
+	c12RawEOFBoundary(p, r, uf)
 	// handleRdrErr: header cut by the real end of stream is an error
 	hf := p.Func(signed + "handleRdrErr")
 	okH := false
@@ -947,6 +948,96 @@ func c12InnerEOF(p *Program, r *Report, f *ssa.Function, innerField string) {
 		n++
 		r.Check(!siteReachable(f, s, notEOF), "R-C12-1", fnName(f)+"/inner-eof-passed#"+itoa(n), p.Pos(s.ret.Pos()), "inner read error returned only when it is not io.EOF", "the error of "+may+" on the inner stream is returned without excluding io.EOF: a stream that ends early (inside a chunk, before the final chunk or the trailer) ends cleanly and a truncated object is stored")
 	}
+}
+
+// rawEOFSummary: f may return, as its error, the unmapped error of a read that can be io.EOF (directly or
+// through another such function of the repository), on a path that does not exclude io.EOF.
+func rawEOFSummary(f *ssa.Function, memo map[*ssa.Function]int) bool {
+	switch memo[f] {
+	case 1:
+		return true
+	case 2, 3: // 3 = in progress (recursion: assume not raw)
+		return false
+	}
+	memo[f] = 3
+	if len(f.Blocks) == 0 {
+		memo[f] = 2
+		return false
+	}
+	var notEOF []edge
+	for _, ce := range condEdgesOf(f) {
+		if isEOFCond(ce) {
+			notEOF = append(notEOF, ce.fails)
+		}
+	}
+	raw := false
+	for _, s := range errReturnSites(f) {
+		if isNilConst(s.val) {
+			continue
+		}
+		for _, o := range terminalRoots(Origins(s.val, nil)) {
+			if o.Kind != "call" || o.Call == nil {
+				continue
+			}
+			src := mayEOFCalls[o.Desc]
+			if !src {
+				if cal := o.Call.Common().StaticCallee(); cal != nil && cal.Pkg != nil && strings.HasPrefix(cal.Pkg.Pkg.Path(), modPath) {
+					src = rawEOFSummary(cal, memo)
+				}
+			}
+			if src && siteReachable(f, s, notEOF) {
+				raw = true
+			}
+		}
+	}
+	if raw {
+		memo[f] = 1
+	} else {
+		memo[f] = 2
+	}
+	return raw
+}
+
+// c12RawEOFBoundary: a Read method never returns the error of a helper that may carry a raw inner io.EOF
+// without excluding io.EOF first.
+func c12RawEOFBoundary(p *Program, r *Report, f *ssa.Function) {
+	memo := map[*ssa.Function]int{}
+	var notEOF []edge
+	for _, ce := range condEdgesOf(f) {
+		if isEOFCond(ce) {
+			notEOF = append(notEOF, ce.fails)
+		}
+	}
+	seen := map[string]bool{}
+	nHelpers := 0
+	for _, c := range callsIn(f) {
+		cal := c.Common().StaticCallee()
+		if cal == nil || cal.Pkg == nil || !strings.HasPrefix(cal.Pkg.Pkg.Path(), modPath) {
+			continue
+		}
+		nHelpers++
+		if !rawEOFSummary(cal, memo) {
+			continue
+		}
+		// this helper can hand up a raw EOF: every return of its error must exclude io.EOF
+		for _, s := range errReturnSites(f) {
+			if isNilConst(s.val) {
+				continue
+			}
+			for _, o := range terminalRoots(Origins(s.val, nil)) {
+				if o.Kind == "call" && o.Call == c {
+					short := fnName(cal)
+					k := fnName(f) + "/inner-eof-passed-by:" + short[strings.LastIndex(short, ".")+1:]
+					if seen[k] {
+						continue
+					}
+					seen[k] = true
+					r.Check(!siteReachable(f, s, notEOF), "R-C12-1", k, p.Pos(s.ret.Pos()), "helper's possibly-EOF error excluded before it is returned", "the error of "+short+" is returned as it is, and that helper can return the inner stream's io.EOF unmapped: a stream that ends early at that point ends cleanly and a truncated object is stored")
+				}
+			}
+		}
+	}
+	r.Ok("R-C12-1", fnName(f)+"/helpers-summarised", p.Pos(f.Pos()), itoa(nHelpers)+" calls into the repository summarised for raw io.EOF")
 }
 
 func controlsC12() []Control {
